@@ -321,6 +321,8 @@ func checkC20(p *Prog, r *Report) {
 	ruleLockReentry(p, ca, lockers, r, "R-C20-REENTRY")
 	ruleC20Clean(p, a, ca, r)
 	ruleC20SameLoad(p, a, ca, r)
+	ruleC20DebugPure(p, a, ca, r)
+	ruleC20OneCache(p, a, ca, r)
 
 	// ---- R-C20-ISO
 	r.Begin("R-C20-ISO", "per-set state is per instance: the constructor gives every map/pointer field a fresh object; Template.Options is fresh and copied into", 4)
